@@ -154,17 +154,11 @@ def run(ctx):
     pending_path, stats_path = ctx.path("pending.ndjson"), ctx.path("replay_stats.json")
     rep = vlib.run_harness(binp, ["replay", cases_path, pending_path, stats_path], timeout=3000)
     ctx.note("replay: %s" % json.dumps({k: v for k, v in rep.items() if k.startswith(("cases", "ok_primary", "pending"))}))
-    pending = vlib.read_ndjson(pending_path)
-    planted_seen = {e["case"] for e in pending if str(e["case"]).startswith("selftest-corrupt-")}
-    if planted_seen != {"selftest-corrupt-gn", "selftest-corrupt-nav", "selftest-corrupt-inst"}:
-        raise vlib.ToolError("binding self-check failed: the harness accepted a corrupted generated case (reported: %s)" % sorted(planted_seen))
-    pending = [e for e in pending if not str(e["case"]).startswith("selftest-corrupt-")]
 
     # ---- impl -> spec -------------------------------------------------------------------------------
     rec_path = ctx.path("recorded.ndjson")
     rec = vlib.run_harness(binp, ["record", ctx.seed, 3000 if ctx.quick else 30000, 8 if ctx.quick else 40, rec_path], timeout=3000)
     ctx.note("record: %s" % json.dumps(rec))
-    recorded = vlib.read_ndjson(rec_path)
 
     # binding self-check (impl -> spec), from TLC-generated data only: the judge must accept the primary expectation
     # of a generated case and reject corruptions of it
@@ -186,42 +180,84 @@ def run(ctx):
                 "selftest-bad-inst-wc": "inst|usWeightClass", "selftest-bad-inst-name": "inst|name4",
                 "selftest-bad-inst-order": "inst|nameRecordsUnsorted", "selftest-bad-mac": "macroman|table"}
 
-    trace = ctx.path("trace.ndjson")
-    events = {}
-    with open(trace, "w") as f:
-        n = 0
-        for src, evs in (("generated", pending), ("recorded", recorded)):
-            for e in evs:
-                n += 1
-                x = {"i": n, "case": e["case"], "ev": e["ev"], "a": e["a"], "o": e["o"]}
-                events[n] = (src, x)
-                f.write(json.dumps(x, separators=(",", ":")) + "\n")
-        for case, ev, a, o in planted:
-            n += 1
-            x = {"i": n, "case": case, "ev": ev, "a": a, "o": o}
-            events[n] = ("planted", x)
-            f.write(json.dumps(x, separators=(",", ":")) + "\n")
-    dev = {"DEV": []}
-    total, mism = vlib.judge_trace_parallel(ctx, "Trace_Naming", "Trace_Naming.cfg", trace, "judge", parts=5,
-                                            timeout=3000, other_tags=dev)
-    ctx.note("judge: %d events (%d generated observations that differ from the primary expectation, %d recorded), "
-             "%d not conformant, %d conformant under a Dev_ reading" % (total, len(pending), len(recorded), len(mism), len(dev["DEV"])))
-    if total != len(events):
-        raise vlib.ToolError("judge consumed %d events, trace has %d" % (total, len(events)))
+    # The events are streamed (thorough: 80 000 observations, 330 MB - held in memory the driver grew to 3 GB and was
+    # killed by the kernel on the loaded machine): each is written to one of PARTS trace files as it is read, only
+    # (source, case, file, offset, length) is kept, and the few events that end up in a violation are read back.
+    PARTS = 5 if ctx.quick else 20
+    n_expected = sum(v for k, v in rep.items() if k.startswith("pending|")) + rec["events"] + len(planted)
+    chunk = n_expected // PARTS + 1
+    part_paths, index, planted_seen = [], {}, set()
+    counts = {"generated": 0, "recorded": 0, "planted": 0}
+    state = {"n": 0, "f": None, "off": 0, "in_part": 0}
+
+    def put(src, case, ev, a, o):
+        if state["f"] is None or state["in_part"] >= chunk:
+            if state["f"] is not None:
+                state["f"].close()
+            part_paths.append(ctx.path("trace.ndjson.part%d" % len(part_paths)))
+            state["f"], state["off"], state["in_part"] = open(part_paths[-1], "wb"), 0, 0
+        state["n"] += 1
+        state["in_part"] += 1
+        line = (json.dumps({"i": state["n"], "case": case, "ev": ev, "a": a, "o": o}, separators=(",", ":")) + "\n").encode()
+        state["f"].write(line)
+        index[state["n"]] = (src, case, len(part_paths) - 1, state["off"], len(line))
+        state["off"] += len(line)
+        counts[src] += 1
+
+    def stream(path):
+        with open(path) as f:
+            for ln in f:
+                if ln.strip():
+                    yield json.loads(ln)
+
+    def fetch(i):
+        _, _, part, off, length = index[i]
+        with open(part_paths[part], "rb") as f:
+            f.seek(off)
+            return json.loads(f.read(length))
+
+    for e in stream(pending_path):
+        if str(e["case"]).startswith("selftest-corrupt-"):
+            planted_seen.add(e["case"])
+        else:
+            put("generated", e["case"], e["ev"], e["a"], e["o"])
+    if planted_seen != {"selftest-corrupt-gn", "selftest-corrupt-nav", "selftest-corrupt-inst"}:
+        raise vlib.ToolError("binding self-check failed: the harness accepted a corrupted generated case (reported: %s)" % sorted(planted_seen))
+    for e in stream(rec_path):
+        put("recorded", e["case"], e["ev"], e["a"], e["o"])
+    for case, ev, a, o in planted:
+        put("planted", case, ev, a, o)
+    state["f"].close()
+    n_events = state["n"]
+
+    import concurrent.futures
+
+    def judge_part(k):
+        return vlib.judge_trace(ctx, "Trace_Naming", "Trace_Naming.cfg", part_paths[k], "judge.%d" % k, timeout=3000, xmx="2g")
+    total, mism, n_dev = 0, [], 0
+    with concurrent.futures.ThreadPoolExecutor(max_workers=5) as ex:
+        for res, mm in ex.map(judge_part, range(len(part_paths))):
+            total += res.distinct - 1
+            mism.extend(mm)
+            n_dev += len(res.decoded.get("DEV", []))
+    ctx.note("judge: %d events in %d parts (%d generated observations that differ from the primary expectation, %d recorded), "
+             "%d not conformant, %d conformant under a Dev_ reading" %
+             (total, len(part_paths), counts["generated"], counts["recorded"], len(mism), n_dev))
+    if total != n_events:
+        raise vlib.ToolError("judge consumed %d events, trace has %d" % (total, n_events))
 
     by_key, count_by_key = {}, {}
     rejected = {}
     for m in mism:
-        src, ev = events[m["i"]]
+        src, case, _, _, size = index[m["i"]]
         if src == "planted":
-            rejected[ev["case"]] = set(m["keys"])
+            rejected[case] = set(m["keys"])
             continue
         for key in m["keys"]:
             count_by_key[src + ":" + key] = count_by_key.get(src + ":" + key, 0) + 1
             old = by_key.get(key)
-            size = len(json.dumps(ev["a"]))
             if old is None or (old[0] == "recorded" and src == "generated") or (old[0] == src and size < old[3]):
-                by_key[key] = (src, ev, m, size)
+                by_key[key] = (src, m["i"], m, size)
     for case, key in want_bad.items():
         if key not in rejected.get(case, set()):
             raise vlib.ToolError("binding self-check failed: Trace_Naming did not reject %s with %s (keys: %s)" %
@@ -232,7 +268,8 @@ def run(ctx):
                                  "(%s: %s)" % (case, sorted(rejected[case])))
 
     violations = []
-    for key, (src, ev, m, _) in sorted(by_key.items()):
+    for key, (src, i_ev, m, _) in sorted(by_key.items()):
+        ev = fetch(i_ev)
         detail = {"source": src, "key": key, "ev": ev["ev"], "a": ev["a"], "o": ev["o"], "want": m["want"], "keys": m["keys"]}
         if src == "recorded" and not str(ev["case"]).startswith("syn-") and ev["ev"] == "Inst":
             detail["font"] = ev["case"]
@@ -256,7 +293,7 @@ def run(ctx):
     coverage = {
         "states": mc.distinct,
         "transitions": mc.generated,
-        "traces_validated_against_impl": total_cases + len(recorded),
+        "traces_validated_against_impl": total_cases + counts["recorded"],
         "samples": [samples.get("gn", plant["gn"]), samples.get("nav", plant["nav"]),
                     {"k": "inst", "a": {k: v for k, v in plant["inst"]["a"].items() if k not in ("names", "kept")},
                      "e": {k: (_s(v) if k.startswith("n") else v) for k, v in plant["inst"]["e"].items() if k not in ("kept", "ord")}}],
@@ -267,7 +304,7 @@ def run(ctx):
         "recorded": rec,
         "events_judged": total,
         "not_conformant_by_key": count_by_key,
-        "conformant_under_dev_reading": len(dev["DEV"]),
+        "conformant_under_dev_reading": n_dev,
         "tlc_depth": mc.depth,
         "binding_selfcheck": "three corrupted generated expectations handed on by the harness; Trace_Naming accepts the primary "
                              "expectation of a generated gn / nav / inst case and rejects seven corruptions (get_name text, "
